@@ -126,6 +126,16 @@ impl Cache {
         self.procs.remove(pid);
     }
 
+    #[cfg(acts_verif)]
+    pub fn verif_uncache(&self, pid: &str) {
+        self.procs.remove(pid);
+    }
+
+    #[cfg(acts_verif)]
+    pub fn verif_cached(&self, pid: &str) -> Option<Arc<Process>> {
+        self.procs.get(pid)
+    }
+
     fn get_proc(&self, pid: &str) -> Option<Arc<Process>> {
         self.procs.get(pid)
     }
